@@ -16,7 +16,7 @@ import Thanos.Model.CompactProto
 
   C34 / C29 (protocol): one op is a whole trace
     cp.run <deleteDelay> <ignoreDelay> <lag> <gateways> <actions `,`-joined>
-      action = s (ship) | c:<id+id+…> (compact) | m:<b>:<r> (mark source b of result r) | g (garbage-collect all
+      action = s (ship) | c:<id+id+…> (compact) | f:<id+id+…> (compaction whose upload fails) | m:<b>:<r> (mark source b of result r) | g (garbage-collect all
                duplicates) | x (clean all blocks marked long enough ago) | y:<g> (gateway g syncs) | t:<d> (tick)
       -> per action, `;`-joined:  <ok|no>/<unmarked ids>/<marked ids>/<loaded ids of gateway 0>|<of gateway 1>|…
       (a disabled action answers `no` and leaves the state unchanged)
@@ -95,6 +95,14 @@ def doAction (P : Params) (s : State) (tok : String) : Option (Bool × State) :=
   | ["c", ids] =>
     match parseNats? '+' ids with
     | some ids => some (match step P s (.compact ids) with | some s' => (true, s') | none => (false, s))
+    | none => none
+  | ["f", ids] =>
+    match parseNats? '+' ids with
+    | some ids =>
+      -- enabled like a compaction; the result never becomes visible
+      some (match step P s (.compact ids) with
+            | some _ => (match step P s .failedUpload with | some s' => (true, s') | none => (false, s))
+            | none => (false, s))
     | none => none
   | ["m", b, r] =>
     match parseNat? b, parseNat? r with
